@@ -19,7 +19,7 @@ LAYER = {1: "part-map: what a reader of the document in memory sees after this o
          5: "abstraction: duplicate keys in the abstracted state",
          6: "reads-neutral: a part set in memory has no current time stamp, the next get_part replaces it by the file's content",
          7: "rdf-replaced: save replaced a manifest.rdf held in memory and listed in the manifest by the default one"}
-WEIGHTS = dict(get=3, touch=4, edit=5, set=2, setxml=3, setnew=2, **{"del": 2}, addfile=2, save=7, saveself=2, reopen=6, clone=2, shrink=2, grow=1)
+WEIGHTS = dict(get=3, touch=4, edit=5, set=2, setxml=3, setnew=2, **{"del": 2}, addfile=2, save=7, saveself=2, reopen=6, clone=2, shrink=2, grow=1, merge=1, delpic=1)
 
 
 def make_histories(tier, rng):
@@ -66,6 +66,16 @@ def make_histories(tier, rng):
                      dict(op="save", packaging=pk, target=tg, pretty=False, reuse=0), dict(op="reopen", r=1), dict(op="touch", name="content.xml"),
                      dict(op="get", r=rng.randrange(1 << 30)), dict(op="save", packaging=pk, target=tg, pretty=False, reuse=0), dict(op="reopen", r=1)]
                 hs.append(h)
+    # the real merge_styles_from (images of master-page / fill-image styles are copied) around del_part / add_file of the same names
+    PIC = pkglib.POOL[0]
+    A = dict(op="addfile", content=PIC, ext=".png", filelike=False)
+    SVB = dict(op="save", packaging="zip", target="buf", pretty=False)
+    img_samples = [s for s in S if s.endswith(("background.odp", "example.odp"))]
+    for st, src in [(starts[0], dict(base="text", ext=".png", fill=[PIC], master=[PIC])), (starts[2], dict(base=img_samples[0]))] + \
+                   [(dict(op="open", src=s, buf=b), dict(base=s)) for s in img_samples for b in (False, True)]:
+        M = dict(op="merge", source=src)
+        hs.append([dict(st), dict(M), dict(SVB), dict(op="delpic", r=3), dict(M), dict(SVB), dict(op="reopen", r=1), dict(op="get", r=5)])
+        hs.append([dict(st), dict(A), dict(op="delpic", r=4), dict(M), dict(SVB), dict(op="reopen", r=1), dict(op="touch", name="styles.xml")])
     # F35: a package without manifest.rdf, opened by path / by buffer; the user provides one and lists it; save
     import zipfile
     nordf = [s for s in small if "manifest.rdf" not in zipfile.ZipFile(s).namelist()][:2]
